@@ -143,7 +143,7 @@ def run(chk, replay=None):
                     if chk.tier == "quick" and len(evs) > 5000:
                         stats["skipped_long"] = stats.get("skipped_long", 0) + 1
                         continue
-                    if chk.tier != "quick" and budget < len(evs):
+                    if chk.tier != "quick" and (budget < len(evs) or len(evs) > 12000):      # replay cost grows faster than the trace (the model state is a chain of function updates)
                         stats["not_replayed_over_budget"] = stats.get("not_replayed_over_budget", 0) + 1
                         continue
                     budget -= len(evs)
@@ -176,7 +176,7 @@ def run(chk, replay=None):
         "evaluations": stats["links"], "distinct_nontrivial": sum(1 for t in traces if t[1] > 1),
         "traces_validated_against_impl": len(traces), "states": stats["events"] + len(traces), "transitions": stats["events"],
         "rule": "self-checking programs with 40..2400 strings (duplicates, suffixes, strings longer than a map block) x threads {1,2,4,16} x split parallelism {1,2} x min-group-bytes {256,1024} "
-                "x perturbation seeds; add_input_sections phases replayed through Model.step with observed values compared (thorough: up to 100000 events per program, in random order of the matrix); outputs compared byte for byte across the matrix and executed; "
+                "x perturbation seeds; add_input_sections phases replayed through Model.step with observed values compared (thorough: traces of up to 12000 events, up to 100000 events per program, in random order of the matrix); outputs compared byte for byte across the matrix and executed; "
                 "non-trivial = phase with more than one input group",
         "stats": stats, "rejected_histories": bad,
         "samples": [{"groups": t[1], "capacity": t[2], "first_events": [list(e) for e in t[3][:10]]} for t in traces[:2]],
